@@ -1,5 +1,6 @@
 pub mod ak;
 pub mod c01;
+pub mod c02;
 pub mod driver;
 pub mod engine;
 pub mod egen;
@@ -10,6 +11,7 @@ use vcore::evid::Tier;
 pub fn dispatch(prop: &str, tier: Tier, replay: Option<String>) -> i32 {
     match prop {
         "C01" => c01::run(tier, replay),
+        "C02" => c02::run(tier, replay),
         "count" => {
             for (n, c) in engine::count_strata_bodies(tier) {
                 println!("{n}: {c}");
